@@ -33,7 +33,7 @@ func crashScenarios(tier string) []*simScenario {
 		scenElect([]uint64{1, 2, 3}, nil, 3, dev, 1),
 		scenRepl(replSeedByName("leader"), dev, true, 2, 1, 3),
 		scenRepl(replSeedByName("divergent"), dev, true, 1, 1, 4),
-		scenMember(memberSeeds[1], dev, 1, 0, true, nil, 1),
+		scenMember(memberSeedByName("2v+nv"), dev, 1, 0, true, nil, 1),
 		scenSnap(snapSeeds[snapSeedIndex("full")], dev, true, true, 1),
 		scenSnap(snapSeeds[snapSeedIndex("lagging")], dev, true, true, 1),
 	}
